@@ -152,7 +152,7 @@ package sql
 //@   ensures connection-leaves-the-transaction: tx.tx.conn.autoCommit
 
 //@ func (*ATTx).commitOnAT
-//@   prop C02
+//@   prop C02 C10
 //@   requires forall(i, 0, len(txHooks), txHooks[i] != nil)
 //@   requires tx != nil && tx.tx != nil && tx.tx.tranCtx != nil && tx.tx.tranCtx.RoundImages != nil && tx.tx.conn != nil && tx.tx.target != nil
 //@   requires ghost.dtx == 1 && ghost.registers == 0 && ghost.flushes == 0 && ghost.reports == 0 && !ghost.reported_failed && !ghost.reported_done && !ghost.report_acked && tx.tx.tranCtx.BranchID == 0
@@ -384,6 +384,7 @@ package sql
 //@   ensures failed-start-is-not-held-for-phase-two: global && (c.Conn.res.shouldBeHeld || c.Conn.res.dbType != types.DBTypeUnknown) && called("start#1") && callres("start#1", 0) != nil ==> !c.isConnKept
 //@   at call start#1: assert id-from-xid-and-branch: c.xaBranchXid != nil && c.xaBranchXid.xid == cv.(*tm.ContextVariable).Xid && c.xaBranchXid.branchId == c.Conn.txCtx.BranchID && c.Conn.txCtx.BranchID != 0 && ghost.registers == 1 && ghost.reg_ok
 //@   ensures local-untouched: !global ==> ghost.xa_state == 0 && ghost.registers == 0
+//@   ensures C16/plain-begin-leaves-the-xa-state-of-the-connection-alone: !global ==> c.tx == old(c.tx) && c.xaActive == old(c.xaActive) && c.xaBranchXid == old(c.xaBranchXid) && c.xaResource == old(c.xaResource) && c.isConnKept == old(c.isConnKept)
 //@   ensures never-beyond-active: ghost.xa_state != 3 && ghost.xa_state != 4
 
 //@ func (*XAConn).createNewTxOnExecIfNeed
